@@ -22,6 +22,28 @@ theorem run_summary_exclusive (sat : Str → Option Bool) (sem : Env → Nat →
     (run sat sem cfg env0 parts).summary.Exclusive :=
   C02.verdict_trichotomy sat sem cfg env0 parts
 
+/-- ★ a recorded failure is a FAILED doctest whatever ran before it — in particular when the
+    failure precedes the first executed part (compile-only error such as `return 5` in the first
+    part that is not skipped, a malformed directive, the module under test raising on import):
+    nothing was logged, no part was skipped at the failing position, and the summary still says
+    failed, not skipped.  (`skipped` is "every part is in `_skipped_parts`", not "nothing ran".) -/
+theorem failure_recorded_is_failed (sat : Str → Option Bool) (sem : Env → Nat → RunPart → ExecResult × Env)
+    (cfg : RunCfg) (env0 : Env) (parts : List RunPart)
+    (h : (run sat sem cfg env0 parts).state.failure.isSome = true) :
+    (run sat sem cfg env0 parts).summary.failed = true ∧
+    (run sat sem cfg env0 parts).summary.skipped = false ∧
+    (run sat sem cfg env0 parts).summary.passed = false := by
+  have hf : (run sat sem cfg env0 parts).summary.failed = true := by
+    rw [(C02.run_state_eq sat sem cfg env0 parts).1] at h
+    rw [(C02.run_state_eq sat sem cfg env0 parts).2]
+    simpa [summaryOf] using h
+  have hx := C02.verdict_trichotomy sat sem cfg env0 parts
+  simp only at hx
+  rcases hx with ⟨_, h2, _⟩ | ⟨h1, _, h3⟩ | ⟨_, h2, _⟩
+  · rw [hf] at h2; cases h2
+  · exact ⟨hf, h3, h1⟩
+  · rw [hf] at h2; cases h2
+
 /-- the native runner never sees an interrupt coming out of the model, and every summary it sees
     is exclusive -/
 theorem resultOfRun_spec (o : RunOutcome Env) :
@@ -405,6 +427,39 @@ example : (exMod.map (·.doc.uniqueCallname)).Nodup ∧ ∀ x ∈ exMod, ':' ∉
 /-- the zero-arg fallback: a name that matches no doctest runs the function of that name -/
 example : gather "k".toList exMod [⟨⟨"k".toList, 0, ">>> k()".toList⟩, .summary ⟨true, false, false⟩⟩] =
     [⟨⟨"k".toList, 0, ">>> k()".toList⟩, .summary ⟨true, false, false⟩⟩] := by decide +kernel
+
+/-! doctests that fail BEFORE anything ran: compile-only error in the first executed part (after a
+    skipped one), malformed directive, module raising on import — each is tallied as failed -/
+def earlySem : Unit → Nat → RunPart → ExecResult × Unit := fun _ _ p =>
+  (if p.part.execLines == ["return 5".toList] then .compileError (some 1) else .ok [] .notEvaled, ())
+def earlySat : Str → Option Bool := fun _ => none     -- `foo:bar` : requirement evaluation raises
+def pCompile : List RunPart :=
+  [{ part := { execLines := ["print(1)".toList], wantLines := some ["x".toList] },
+     directives := [{ name := "SKIP", inline := true }] },
+   { part := { execLines := ["return 5".toList] } }]
+def pDirective : List RunPart :=
+  [{ part := { execLines := ["print(1)".toList] },
+     directives := [{ name := "REQUIRES", args := ["foo:bar".toList] }] }]
+def pPlain : List RunPart := [{ part := { execLines := ["print(1)".toList] } }]
+def earlyMod : List Entry :=
+  [⟨⟨"f".toList, 0, ">>> print(1)  # xdoctest: +SKIP\nx\n>>> return 5".toList⟩,
+      resultOfRun (run earlySat earlySem (nativeCfg [] true) () pCompile)⟩,
+   ⟨⟨"g".toList, 0, ">>> # xdoctest: +REQUIRES(foo:bar)\n>>> print(1)".toList⟩,
+      resultOfRun (run earlySat earlySem (nativeCfg [] true) () pDirective)⟩,
+   ⟨⟨"h".toList, 0, ">>> print(1)".toList⟩,
+      resultOfRun (run earlySat earlySem (nativeCfg [] false) () pPlain)⟩]
+example : (run earlySat earlySem (nativeCfg [] true) () pCompile).state.executed = [] ∧
+    (run earlySat earlySem (nativeCfg [] true) () pCompile).state.logged = [] ∧
+    (run earlySat earlySem (nativeCfg [] true) () pCompile).state.failure =
+      some { kind := .compile, partIdx := 1, tbLineno := 1 } := by decide +kernel
+example : (run earlySat earlySem (nativeCfg [] true) () pDirective).state.failure.map (·.kind) = some .directive := by
+  decide +kernel
+example : (run earlySat earlySem (nativeCfg [] false) () pPlain).state.failure.map (·.kind) = some .importError := by
+  decide +kernel
+example : (match doctestModule cmdAll earlyMod [] with
+    | .ran rs => (rs.nTotal, rs.nPassed, rs.nFailed, rs.nSkipped, rs.failed.length) | _ => (0, 0, 0, 0, 0)) = (3, 0, 3, 0, 3) := by
+  decide +kernel
+example : exitCode (doctestModule cmdAll earlyMod []) = 1 := by decide +kernel
 end Examples
 
 end Xdoc.C10
